@@ -30,6 +30,7 @@ pub fn c08(sc: &Scenario, recs: &[CallRecord], stats: &mut Stats) -> Vec<Violati
                 HOp::SetFlags(..) => "set_flags",
                 HOp::SetUnsafe(_) => "set_unsafe",
                 HOp::SetMutators(_) => "set_mutators",
+                HOp::SetProtocol(_) => "set_protocol",
             })
             .collect();
         let last_before = prev_ops.last().copied().unwrap_or("none");
